@@ -203,9 +203,9 @@ var mapStructure = &structure{
 	finish: func(recs []rec) {
 		for i := range recs {
 			if k := recs[i].In.(mapIn).Key; k >= 0 {
-				recs[i].Res = fmt.Sprintf("k%d", k)
+				recs[i].Res = resKey + k
 			} else {
-				recs[i].Res = "*"
+				recs[i].Res = resAll
 			}
 		}
 	},
